@@ -98,9 +98,9 @@ func c08prop(ev *evid.Rec) func(rt *rapid.T) {
 		if storedInfo {
 			comment = rapid.SampledFrom([]string{"", "a comment", strings.Repeat("c", 300), strings.Repeat("L", 32600), strings.Repeat("M", 32768), strings.Repeat("N", 40000), strings.Repeat("O", 65535)}).Draw(rt, "comment") // a comment may be as long as a field: the stored info fork then exceeds 32 KiB
 		}
-		mode := rapid.SampledFrom([]string{"plain", "plain", "resume", "resume", "preview"}).Draw(rt, "mode")
+		mode := rapid.SampledFrom([]string{"plain", "plain", "resume", "resume", "preview", "preview-resume"}).Draw(rt, "mode")
 		k := 0
-		if mode == "resume" {
+		if mode == "resume" || mode == "preview-resume" {
 			k = genOffset(rt, "offset", size)
 		}
 		inFolder := rapid.Bool().Draw(rt, "infolder")
@@ -181,6 +181,9 @@ func c08prop(ev *evid.Rec) func(rt *rapid.T) {
 				fs = append(fs, fld(hlref.FFileResumeData, hlref.ResumeData(k)))
 			case "preview":
 				fs = append(fs, fld(hlref.FFileTransferOptions, hlref.BE16(2)))
+			case "preview-resume":
+				// a preview that continues an earlier one: bare data from the offset
+				fs = append(fs, fld(hlref.FFileResumeData, hlref.ResumeData(k)), fld(hlref.FFileTransferOptions, hlref.BE16(2)))
 			}
 			r := c.Request(hlref.TranDownloadFile, fs...)
 			ctx := fmt.Sprintf("download %q size=%d mode=%s offset=%d info=%v rsrc=%v(%d) via-alias=%v", name, size, mode, k, storedInfo, storedRsrc, len(rsrc), viaAlias)
@@ -203,14 +206,14 @@ func c08prop(ev *evid.Rec) func(rt *rapid.T) {
 			}
 			rx, _ := w.Transfer("10.0.0.1:2", ref, 0, nil, -1)
 			emptyMACR := hlref.ForkHeader("MACR", 0)
-			if mode == "preview" {
-				if hlref.U32(ts) != size {
-					rt.Fatalf("%s: preview transfer size %d, file has %d bytes", ctx, hlref.U32(ts), size)
+			if mode == "preview" || mode == "preview-resume" {
+				if hlref.U32(ts) != size-k {
+					rt.Fatalf("%s: preview transfer size %d, the data from the offset on has %d bytes", ctx, hlref.U32(ts), size-k)
 				}
-				if len(rx) < size || !bytes.Equal(rx[:size], content) {
-					rt.Fatalf("%s: preview stream does not start with the bare file data (got %d bytes, first difference at %d)", ctx, len(rx), firstDiff(rx[:min(len(rx), size)], content))
+				if len(rx) < size-k || !bytes.Equal(rx[:size-k], content[k:]) {
+					rt.Fatalf("%s: preview stream does not start with the bare file data from offset %d on (got %d bytes, first difference at %d)", ctx, k, len(rx), firstDiff(rx[:min(len(rx), size-k)], content[k:]))
 				}
-				tail := rx[size:]
+				tail := rx[size-k:]
 				if storedRsrc {
 					if !bytes.Equal(tail, append(hlref.ForkHeader("MACR", len(rsrc)), rsrc...)) && !bytes.Equal(tail, rsrc) {
 						rt.Fatalf("%s: preview tail (%d bytes) is neither nothing nor the resource fork", ctx, len(tail))
